@@ -14,7 +14,13 @@ from . import wasmfam, wasmcheck
 PID = "C07"
 
 
+HISTORIES = [["g0", "r0", "g1"], ["r1", "g1", "g2"], ["g3", "r2", "r3", "g0"], ["r0", "r1", "g4", "g1"], ["g1", "g2", "g3", "g4", "g0"], ["r4", "g2"], ["g0", "r4", "g3", "r1", "g1"],
+             ["r2", "g4", "r0", "g2", "r3", "g3"]]
+
+
 def run_instance(inst):
+    if "order" in inst:
+        return wasmcheck.run_history(inst, "validity")
     return wasmcheck.run_program(inst, "validity")
 
 
@@ -29,6 +35,8 @@ def run(tier, seed, only=None):
     insts = wasmfam.family_s(tier, seed) + wasmfam.family_shapes(tier, seed) + wasmfam.family_outside(tier, seed)
     if only:
         insts = [i for i in insts if only in i["name"] or only in i["tags"]]
+    else:
+        insts += [dict(order=h, name="history " + " ".join(h), tags=["history"]) for h in HISTORIES]
     chk.assumptions = ["O2 (vlib/wasmref.py) implements WebAssembly 1.0 decoding and validation for the sections and instructions the writer can emit; cross-checked with wasmtime on "
                        "hand-assembled modules at start-up and on every reported counterexample", "paths are distinguished by the LEB128 length of each symbolic constant"]
     chk.shims = ["nsl.WebAssembly.bytes", "nsl.WebAssembly.io.BytesIO", "nsl.WebAssembly.len", "ConstantValue payload replaced by a symbolic integer after lowering",
